@@ -228,9 +228,10 @@ func (v *Verifier) lookupContract(fn *ssa.Function) *Contract {
 	if xpkg == nil && fn.Origin() != nil {
 		xpkg = fn.Origin().Pkg // an instance of a generic function
 	}
-	if c == nil && xpkg != nil && fn.Signature.Recv() == nil && !strings.HasPrefix(xpkg.Pkg.Path(), "github.com/consensys/gnark-crypto") {
-		// a function of another module (standard library): an assumed contract stated as "func <pkg name>.<Func>"
-		// in one of the loaded contract files
+	if c == nil && xpkg != nil && fn.Signature.Recv() == nil {
+		// a function of another package (standard library, or another package of this module that is a dependency of
+		// the one under analysis): an ASSUMED contract stated as "func <pkg name>.<Func>" in one of the loaded
+		// contract files (only contracts marked assumed are found this way; they are listed as such)
 		base := fn.Name()
 		if i := strings.Index(base, "["); i > 0 {
 			base = base[:i] // an instance of a generic function: the contract is stated for the generic function
